@@ -121,6 +121,15 @@ CLASSES = {
                                              elec_model=New('pmutt.statmech.elec:GroundStateElec', potentialenergy=Real(-20., -1.), spin=Const(0.))))]),
             descriptor=Const('elements'), _post=dict(offset=Const({}))),
         ['offset', 'T_ref', 'descriptor']),
+    'Nasa9[5 intervals]': (
+        New('pmutt.empirical.nasa:Nasa9', name=Const('H2O'), phase=Const('G'), elements=Const({'H': 2, 'O': 1}),
+            nasas=ListOf([New('pmutt.empirical.nasa:SingleNasa9', T_low=Const(200. + 1000. * j), T_high=Const(1200. + 1000. * j), a=RealVec(9, -5., 5.))
+                          for j in (2, 0, 4, 1, 3)])),
+        ['nasas', 'T_low', 'T_high']),
+    'SurfaceReaction(adsorption, user A and Ea)': (
+        reaction('pmutt.omkm.reaction:SurfaceReaction', id=Const('r_0002'), is_adsorption=Const(True), A=Real(1e10, 1e15), Ea=Real(0., 50.),
+                 beta=Real(0., 2.), sticking_coeff=Real(0.01, 1.), use_motz_wise=Const(False)),
+        ['id', 'is_adsorption', 'A', 'Ea', 'beta', 'sticking_coeff', 'use_motz_wise']),
     'vanDerWaalsEOS(from_critical)': (New('pmutt.eos:vanDerWaalsEOS', _via='from_critical', Tc=Real(100., 700.), Pc=Real(10., 250.)), ['a', 'b']),
     'SurfaceReaction': (reaction('pmutt.omkm.reaction:SurfaceReaction', id=Const('r_0001'), is_adsorption=Const(False), beta=Real(0., 2.),
                                  direction=Const('synthesis'), use_motz_wise=Const(True)),
